@@ -7,6 +7,7 @@ import Matreex.Model.Transpose
 import Matreex.Model.Construct
 import Matreex.Model.Swap
 import Matreex.Model.Overwrite
+import Matreex.Model.Elementwise
 
 namespace Driver
 open Matreex
@@ -17,6 +18,8 @@ structure World where
   es : Nat := 24
   /-- token elements: `Clone::clone` marks the payload with a prime -/
   tok : Bool := true
+
+def World.dfltStr (w : World) : String := if w.zst then "u" else if w.es = 40 then "d" else "0"
 
 def World.cloneFn (w : World) : String → String := fun x => if w.tok then x ++ "'" else x
 
@@ -49,6 +52,44 @@ def inplaceRes (w : World) (r : Nat) (f : Matrix String → M (Except Error Unit
     | .ok (.ok (), m') => (w.set r (some m'), "ok | " ++ stStr m')
     | .ok (.error e, m') => (w.set r (some m'), "err " ++ e.name ++ " | " ++ stStr m')
 
+def World.regStr (w : World) (r : Nat) : String :=
+  match w.get r with
+  | some m => stStr m
+  | none => "-"
+
+/-- closures of the named elementwise methods / operators on token payloads:
+`ref`: `left.clone() ∘ right.clone()`, `consume` and `assign`: `left ∘ right.clone()`;
+`gen`: a recording closure `[left|right]` -/
+def ewClosure (w : World) (variant opname : String) : String → String → String :=
+  fun l r =>
+    let sym := if opname = "add" then "+" else if opname = "sub" then "-" else if opname = "mul" then "*"
+      else if opname = "div" then "/" else if opname = "rem" then "%" else "|"
+    if opname = "gen" then "[" ++ l ++ "|" ++ r ++ "]"
+    else if variant = "ref" then "(" ++ w.cloneFn l ++ sym ++ w.cloneFn r ++ ")"
+    else "(" ++ l ++ sym ++ w.cloneFn r ++ ")"
+
+/-- `dst := a.<elementwise op>(&b)` in the three ownership variants; `panicOnErr` for operators -/
+def stepEw (w : World) (dst a b : Nat) (variant opname : String) (panicOnErr : Bool) (dropB : Bool) :
+    Option (World × String) := do
+  let ma ← w.get a
+  let mb ← w.get b
+  let f := ewClosure w variant opname
+  let fin := fun (w' : World) (res : String) =>
+    let w'' := if dropB then w'.set b none else w'
+    (w'', res ++ " | " ++ w''.regStr dst ++ " | " ++ w''.regStr a ++ " | " ++ w''.regStr b)
+  if variant = "assign" then
+    match ma.elementwiseAssign mb f with
+    | .error e => pure (fin w (faultStr e))
+    | .ok (.ok (), m') => pure (fin (w.set a (some m')) "ok")
+    | .ok (.error e, m') =>
+      pure (fin (w.set a (some m')) (if panicOnErr then "panic" else "err " ++ e.name))
+  else
+    let w1 := if variant = "consume" then w.set a none else w
+    match ma.elementwiseOperation w.es mb f with
+    | .error e => pure (fin w1 (faultStr e))
+    | .ok (.ok m') => pure (fin (w1.set dst (some m')) "ok")
+    | .ok (.error e) => pure (fin w1 (if panicOnErr then "panic" else "err " ++ e.name))
+
 def mkMatrix (o : Order) (r c base : Nat) (zst : Bool) : Matrix String :=
   ⟨o, (Shape.mk r c).toAxis o,
     (Array.range (r * c)).map fun k => if zst then "u" else toString (base + k)⟩
@@ -80,13 +121,28 @@ def stepHist (w : World) (ws : List String) : Option (World × String) :=
     pure (inplaceRes w r (·.reshape ⟨nr, nc⟩))
   | ["resize", r, nr, nc] => do
     let r ← r.toNat?; let nr ← nr.toNat?; let nc ← nc.toNat?
-    pure (inplaceRes w r (fun m => m.resize w.es ⟨nr, nc⟩ (if w.zst then "u" else "d")))
+    -- requests that would succeed but are too large to run are skipped on both sides
+    if nr * nc ≤ usizeMax ∧ w.es * (nr * nc) ≤ isizeMax ∧ nr * nc > 100000 then pure (w, "skipped") else
+    pure (inplaceRes w r (fun m => m.resize w.es ⟨nr, nc⟩ w.dfltStr))
   | ["overwrite", r, q] => do
     let r ← r.toNat?; let q ← q.toNat?
     let src ← w.get q
     -- `Clone::clone` of a token appends a prime to its payload (so clones are visible)
     let (w', s) := inplace w r (fun m => m.overwrite (w.cloneFn) src)
     pure (w', s ++ " | " ++ stStr src)
+  | ["ew", dst, a, b, variant, opname] => do
+    let dst ← dst.toNat?; let a ← a.toNat?; let b ← b.toNat?
+    stepEw w dst a b variant opname false false
+  | ["ewop", dst, a, b, sym, form] => do
+    -- operators: form = two letters, o(wned)/b(orrowed) for self and rhs
+    let dst ← dst.toNat?; let a ← a.toNat?; let b ← b.toNat?
+    let opname := if sym = "+" then "add" else "sub"
+    let variant := if form.startsWith "o" then "consume" else "ref"
+    stepEw w dst a b variant opname true (form.endsWith "o")
+  | ["ewopassign", a, b, sym, form] => do
+    let a ← a.toNat?; let b ← b.toNat?
+    let opname := if sym = "+" then "add" else "sub"
+    stepEw w a a b "assign" opname true (form = "o")
   | ["zswap", name, o, nr, nc, a, b] => do
     let o ← parseOrder o; let nr ← nr.toNat?; let nc ← nc.toNat?; let a ← a.toNat?; let b ← b.toNat?
     -- zero-sized elements: only the outcome is observable; bounds decide it (the data path for
